@@ -65,7 +65,7 @@ theorem good (h : Reach A t0 t) (hg : t0.Good) : t.Good := by
   | gate G _ hG _ ih => exact gateNorm_good _ G hG ih
   | ops _ o ih => exact (o.spanEq ih).2
 
-theorem indep (h : Reach A t0 t) (hg : t0.Good) (hi : t0.Indep) : t.Indep := by
+theorem indep (h : Reach A t0 t) (hg : t0.Good) (hi : t0.LinIndep) : t.LinIndep := by
   induction h with
   | refl => exact hi
   | gate G _ hG _ ih => exact indep_gate _ G hG ih
